@@ -5,7 +5,8 @@
    section.
    Part B transcribes the addrConn state machine at the level of its state updates
    (connect / resetTransportAndUnlock / createTransport success and failure / the onClose
-   callback of the transport / the back-off wait / resetConnectBackoff / tearDown), every
+   callback of the transport / the back-off wait / resetConnectBackoff / updateAddrs /
+   tearDown), every
    update going through addrConn.updateConnectivityState (no-op when the state is unchanged)
    into acBalancerWrapper.updateState = a FIFO (the balancer wrapper's CallbackSerializer,
    C31) drained by ADeliver; the callback drops the update when the serializer context is
@@ -13,7 +14,9 @@
    the dial (op ADial).  Each op is one critical section of ac.mu plus the goroutine-local
    code up to the next blocking point (dial, back-off select).
    States: 0 IDLE, 1 CONNECTING, 2 READY, 3 TRANSIENT_FAILURE, 4 SHUTDOWN.
-   Not modelled: client-side health checking (setConnectivityState), updateAddrs, several
+   updateAddrs is modelled for single-address lists that are either the current list (no-op)
+   or a never-used address (so a READY sub-channel is "connected to the wrong address").
+   Not modelled: client-side health checking (setConnectivityState), several
    addresses per sub-channel, the "transport created but already closed" branch of
    createTransport (hctx.Err() != nil => IDLE).  No proofs in this file. *)
 From Coq Require Import List ZArith Bool.
@@ -116,7 +119,7 @@ Record stB := mkB { ast : Z; phase : Z; tr : bool; q : list Z; lbopen : bool; dl
 Definition stB0 : stB := mkB 0 0 false [] true [] [] 1 false.
 
 Inductive bop := BConnect | BDial (ok : bool) | BServerClose | BTimer | BShutdown | BClose | BReset
-               | BDeliver | BNop.
+               | BUpdAddrs (fresh : bool) | BDeliver | BNop.
 
 (* addrConn.updateConnectivityState *)
 Definition emit (b : stB) (s : Z) : stB :=
@@ -151,6 +154,14 @@ Definition bstep (b : stB) (o : bop) : stB :=
   | BReset =>              (* resetConnectBackoff closes the resetBackoff channel *)
     if phase b =? 2 then set_phase (emit b 0) 0 else b
   | BShutdown => teardown b
+  | BUpdAddrs fresh =>     (* addrConn.updateAddrs: same list => nothing.  A new address: *)
+    if fresh then
+      if ast b =? 2 then   (* READY, connected to an address no longer listed: drop the transport, *)
+        set_phase (emit (set_tr b false) 1) 1     (* cancel ac.ctx, go resetTransportAndUnlock: CONNECTING *)
+      else b               (* SHUTDOWN / TRANSIENT_FAILURE / IDLE: only ac.addrs changes ("we were not
+                              connecting"); CONNECTING: the attempt is cancelled and restarted - still
+                              CONNECTING, again one dial parked *)
+    else b
   | BClose =>              (* ClientConn.Close: csMgr SHUTDOWN, balancer wrapper closed, conns torn down *)
     if ccclosed b then b else
     let b1 := teardown b in
@@ -185,7 +196,11 @@ Fixpoint drain (fuel : nat) (b : stB) : stB :=
    cfg [1]      part B: one sub-channel of a real ClientConn
      [1] SubConn.Connect  [2;ok] the pending dial succeeds / fails  [3] the server closes the
      connection  [4] the back-off time passes  [5] SubConn.Shutdown  [6] ClientConn.Close
-     [7] ResetConnectBackoff
+     [7] ResetConnectBackoff  [8;same] SubConn.UpdateAddresses(the current list if same<>0, else
+     one address never used before)  [9] SubConn.Shutdown scheduled so that, when the
+     sub-channel is backing off, the back-off ends (resetBackoff closed) while tearDown is
+     already waiting for ac.mu: tearDown runs first and the connect goroutine's re-check of
+     its context must keep it from reporting IDLE after SHUTDOWN - same model step as [5]
      obs [n; the n states delivered to the LB policy during the op; ac.state; channel state] *)
 Definition decA (op : word) : list aop :=
   match op with
@@ -204,6 +219,8 @@ Definition decB (op : word) : bop :=
   | [5] => BShutdown
   | [6] => BClose
   | [7] => BReset
+  | [8; same] => BUpdAddrs (same =? 0)
+  | [9] => BShutdown
   | _ => BNop
   end.
 
@@ -285,7 +302,9 @@ Definition clausesA_op (a : stA) (op o : word) : list (Z * Z * bool) :=
      that lets the back-off end (time passes / ResetConnectBackoff)
    4 none missed: after the op the last state delivered to the LB policy is the sub-channel's
      current state (while the balancer wrapper is open); the channel reports SHUTDOWN after
-     Close *)
+     Close
+   5 nothing leaves SHUTDOWN: once the sub-channel was SHUTDOWN before the op, or SHUTDOWN is
+     delivered during it, ac.state after the op is SHUTDOWN *)
 Definition last_or (d : Z) (l : list Z) : Z := last l d.
 Definition clausesB_op (b : stB) (op o : word) : list (Z * Z * bool) :=
   match o with
@@ -299,7 +318,8 @@ Definition clausesB_op (b : stB) (op o : word) : list (Z * Z * bool) :=
                then match decB op with BTimer | BReset => true | _ => false end else true));
        (4, a', (if lbopen b && negb (match decB op with BClose => negb (ccclosed b) | _ => false end)
                 then last_or prev d =? a' else true) &&
-               (if ccclosed (bstep b (decB op)) then c' =? 4 else true))]
+               (if ccclosed (bstep b (decB op)) then c' =? 4 else true));
+       (5, a', if (ast b =? 4) || mem 4 d then a' =? 4 else true)]
     | _ => [(0, 0, false)]
     end
   | [] => [(0, 0, false)]
